@@ -27,6 +27,61 @@ def _alarm(signum, frame):
 # ---------------------------------------------------------------------------
 # generator of bounded-rate event models
 
+def _random_event(rng, sy, np_, closed, in_rate, origins, usable=None):
+    """one event process over the symbols of sy (the last parameter is N); states it reads or drains are added to
+    in_rate / origins.  usable: the 1-based states that may be read or drained (default: all)"""
+    ns, n = sy.ns, sy.n
+    iN = sy.idx_param(np_)
+    st = lambda i: psym(sy.idx_state(i), n)
+    pa = lambda k: psym(sy.idx_param(k), n)
+    usable = list(usable) if usable is not None else list(range(1, ns + 1))
+    ntr = rng.choice([1, 1, 1, 2, 2, 3])
+    trs = []
+    for _k in range(ntr):
+        ty = "T" if closed else rng.choice(["T", "T", "B", "D"])
+        if ty == "T" and ns < 2:
+            ty = rng.choice(["B", "D"])
+        if ty in ("T", "D") and not usable:
+            ty = "B"
+        mag = rng.choice([1, 1, 1, 2, 3])
+        if ty == "T":
+            o = rng.choice(usable)
+            d = rng.choice([i for i in range(1, ns + 1) if i != o])
+        elif ty == "B":
+            o, d = 0, rng.randint(1, ns)
+        else:
+            o, d = rng.choice(usable), 0
+        if o:
+            origins.add(o)
+        trs.append({"ty": ty, "o": o, "d": d, "mag": pconst(mag, n)})
+    o0 = next((t["o"] for t in trs if t["o"]), 0)
+    kind = rng.choice(["linear", "linear", "mass", "norm", "const", "two"]) if o0 else \
+        rng.choice(["const", "const", "linear"] if usable else ["const"])
+    th = pa(rng.randrange(np_))
+    xi = (o0 - 1) if o0 else (rng.choice(usable) - 1 if usable else 0)
+    yi = (rng.choice(usable) - 1) if usable else 0
+    if kind == "linear":
+        r = pmul(th, st(xi)); in_rate.add(xi + 1)
+    elif kind == "mass":
+        r = pmul(th, pmul(st(xi), st(yi))); in_rate |= {xi + 1, yi + 1}
+    elif kind == "norm":
+        r = pmul(pmul(th, pmul(st(xi), st(yi))), psym(iN, n, -1)); in_rate |= {xi + 1, yi + 1}
+    elif kind == "const":
+        r = th
+    else:
+        r = padd(pmul(th, st(xi)), pscale(Fraction(1, 2), pmul(pa(rng.randrange(np_)), pmul(st(xi), st(yi)))))
+        in_rate |= {xi + 1, yi + 1}
+    return {"kind": "event", "rate": r, "trs": trs, "route": "E"}
+
+
+def extra_event(rng, defn, lims):
+    """an event to be ADDED to an existing model (add_event / add_transition / add_birth_death after simulations have been
+    run): it reads and drains only states whose declared lower limit is >= 0, like the generator above"""
+    sy = defn.sy
+    usable = [i for i in range(1, sy.ns + 1) if lims[i - 1][0] is not None and lims[i - 1][0] >= 0]
+    return _random_event(rng, sy, sy.np - 1, False, set(), set(), usable=usable)
+
+
 def random_jump_model(rng, closed=False, shape=None, limits=True):
     """returns (Defn, theta (Fractions), x0 (ints), lims)"""
     shape = shape or rng.choice(["any"] * 6 + ["single_event", "single_state", "single_both"])
@@ -46,39 +101,7 @@ def random_jump_model(rng, closed=False, shape=None, limits=True):
     in_rate = set()
     origins = set()
     for _ in range(ne):
-        ntr = rng.choice([1, 1, 1, 2, 2, 3])
-        trs = []
-        for _k in range(ntr):
-            ty = "T" if closed else rng.choice(["T", "T", "B", "D"])
-            if ty == "T" and ns < 2:
-                ty = rng.choice(["B", "D"])
-            mag = rng.choice([1, 1, 1, 2, 3])
-            if ty == "T":
-                o, d = rng.sample(range(1, ns + 1), 2)
-            elif ty == "B":
-                o, d = 0, rng.randint(1, ns)
-            else:
-                o, d = rng.randint(1, ns), 0
-            if o:
-                origins.add(o)
-            trs.append({"ty": ty, "o": o, "d": d, "mag": pconst(mag, n)})
-        o0 = next((t["o"] for t in trs if t["o"]), 0)
-        kind = rng.choice(["linear", "linear", "mass", "norm", "const", "two"]) if o0 else rng.choice(["const", "const", "linear"])
-        th = pa(rng.randrange(np_))
-        xi = (o0 - 1) if o0 else rng.randrange(ns)
-        yi = rng.randrange(ns)
-        if kind == "linear":
-            r = pmul(th, st(xi)); in_rate.add(xi + 1)
-        elif kind == "mass":
-            r = pmul(th, pmul(st(xi), st(yi))); in_rate |= {xi + 1, yi + 1}
-        elif kind == "norm":
-            r = pmul(pmul(th, pmul(st(xi), st(yi))), psym(iN, n, -1)); in_rate |= {xi + 1, yi + 1}
-        elif kind == "const":
-            r = th
-        else:
-            r = padd(pmul(th, st(xi)), pscale(Fraction(1, 2), pmul(pa(rng.randrange(np_)), pmul(st(xi), st(yi)))))
-            in_rate |= {xi + 1, yi + 1}
-        procs.append({"kind": "event", "rate": r, "trs": trs, "route": "E"})
+        procs.append(_random_event(rng, sy, np_, closed, in_rate, origins))
     # limits: states mentioned by a rate (or used as origin) keep a lower limit >= 0
     lims = []
     for i in range(1, ns + 1):
